@@ -143,6 +143,9 @@ func (m *maxDifferenceWatermarkGenerator) Run(ctx execution.ExecutionContext, pr
 	if err != nil {
 		return fmt.Errorf("couldn't evaluate resolution: %w", err)
 	}
+	if resolution.Duration <= 0 {
+		return fmt.Errorf("max_diff_watermark resolution must be positive, got %s", resolution.Duration)
+	}
 
 	if err := m.source.Run(ctx, func(ctx execution.ProduceContext, record execution.Record) error {
 		if record.Values[m.timeFieldIndex].Time.After(curWatermark) {
